@@ -361,6 +361,16 @@ impl Scenario for Exchange {
                                 cur = if MARKETS[m].1 == cur { MARKETS[m].2 } else { MARKETS[m].1 };
                                 pth.push(m);
                             }
+                            // near-valid: a token-consistent path that revisits one of its own markets
+                            // ([X, Y, X] over markets sharing a pair) - invalid only because of the duplicate
+                            if pth.len() >= 2 && p.chance(1, 5) {
+                                let again: Vec<usize> = pth.iter().copied().filter(|m| MARKETS[*m].1 != MARKETS[*m].2 && (MARKETS[*m].1 == cur || MARKETS[*m].2 == cur)).collect();
+                                if !again.is_empty() {
+                                    let m = *p.pick(&again);
+                                    cur = if MARKETS[m].1 == cur { MARKETS[m].2 } else { MARKETS[m].1 };
+                                    pth.push(m);
+                                }
+                            }
                             (pth, cur)
                         } else {
                             (path(&mut p, n_markets), p.usize(0, n_tokens - 1))
